@@ -6,6 +6,7 @@ from ..index import unparse, iter_own_nodes, AnalysisError
 from ..cfg import calls_in_node, handler_catches_all_exceptions
 from ..contain import in_handler, protecting_handler
 from ..framework import stores_to_name, assigned_values, forward
+from .. import exprs as X
 from . import common
 
 EXPLANATION = (
@@ -319,6 +320,17 @@ def rule_attach(chk):
                 if isinstance(v, ast.Attribute) and common.is_self_attr(v.value, "_serializers"):
                     ser_nodes.append((n, v.attr))
         problems = []
+        if q == "Action.finish":
+            # the serializer choice follows exactly the None-ness of the exception parameter (the same test that selects the status)
+            ep = f.pos_params[1]
+            is_exc = lambda x: isinstance(x, ast.Name) and x.id == ep
+            for sn, kind in ser_nodes:
+                br = {X.none_branch(t.exprs[0], lab, is_exc) for t, lab in cfg.guards_of(sn) if t.kind == "test" and any(isinstance(y, ast.Name) and y.id == ep for y in ast.walk(t.exprs[0]))}
+                tests_on_exc = [t for t, lab in cfg.guards_of(sn) if t.kind == "test" and any(isinstance(y, ast.Name) and y.id == ep for y in ast.walk(t.exprs[0]))]
+                want_br = {"success": "none", "failure": "notnone"}.get(kind)
+                if tests_on_exc and want_br and br != {want_br}:
+                    problems.append("serializer .%s is selected under `%s`, which is not the test `%s is%s None`: an exception that is falsy (or any other mismatch with the status test) gets the "
+                                    "other kind's serializer" % (kind, unparse(tests_on_exc[0].exprs[0]), ep, " not" if kind == "failure" else ""))
         for sn, kind in ser_nodes:
             # the status stored on the same arm
             same = []
@@ -385,7 +397,6 @@ def action_type_field_lists(ctx):
     {kind: {"params": constructor parameters whose (user-declared) fields are included,
             "fields": {implicit key: constant value | "<type>" | "<field>"}}}  or None when the construction is not recognised."""
     import copy
-    from .. import exprs as X
     p = ctx.p
     at = ctx.func("_validation", "ActionType.__init__")
     fv = set()
